@@ -51,7 +51,7 @@ def act(op, md=None, size=0, code=0, msg=None, det=0):
 def base(proto, shape, codec="proto", **kw):
     c = dict(proto=proto, shape=shape, codec=codec, comp="", opts=[], sizes=[3] if shape in ("unary", "sstream") else [3, 0],
              script=[], reqmd={}, reqwant={}, maxrecv=0, maxsend=0, sched=[], eofwith=False, trunc=0, trunck=0, timeout="",
-             accept="", tag="", binpad=False, exact=False, corrupt=False, boundary=0, wsclose=False, exactrep=False, reqct="", noise=False, wsfrag=0)
+             accept="", tag="", binpad=False, exact=False, corrupt=False, boundary=0, wsclose=False, exactrep=False, reqct="", noise=False, wsfrag=0, wsnobody=False)
     c.update(kw)
     return c
 
@@ -259,6 +259,12 @@ def fam_ws(rnd, tier, part):
                             sc[-1]["msg"] = []
                         c["script"] = sc
                         out.append(c)
+        # a binding without a body: the URL is the one (empty) message, after which the stream has ended
+        for shape in ["bidi", "cstream", "sstream", "unary"]:
+            for extra in ([1, 2] if cs(shape) else [0]):
+                c = base("ws", shape, codec="json", sizes=[-1], tag="stream", wsnobody=True)
+                c["script"] = ([act("recv")] * (1 + extra) if cs(shape) else []) + ([act("send", size=2)] if shape != "cstream" else []) + [act("ret", code=0)]
+                out.append(c)
     else:   # limits
         for L in ([30, 64, 1000] if tier == "quick" else [24, 30, 64, 200, 1000, 5000]):
             for size in [L - 1, L, L + 1, 3 * L, 50 * L]:
@@ -344,14 +350,17 @@ def fam_opts(scripts, rnd, tier):
     for proto in ["http", "grpc", "grpcweb"]:
         for shape in ["unary", "cstream", "sstream", "bidi"]:
             for size in [-1, 0, 1, 4, 5, 6, 1000]:
-                for outcome in ["ok", "errbefore", "errafter"]:
+                for outcome in ["ok", "errbefore", "errafter", "erreof", "errcancel", "errplain"]:
                     c = base(proto, shape, codec=rnd.choice(["proto", "json"]), tag="opts")
-                    if proto != "http" and rnd.random() < 0.4:
-                        c["comp"] = "gzip"
+                    if proto != "http" and rnd.random() < 0.6:
+                        c["comp"] = rnd.choice(["gzip", "identity"])     # (identity is a registered encoding without a compressor)
                     c["sizes"] = [size] if shape in ("unary", "sstream") else [size, 0]
                     sc = recv_all(c)
                     if outcome == "errbefore":
                         sc.append(act("ret", code=7, msg=["plain"]))
+                    elif outcome in ("erreof", "errcancel", "errplain"):
+                        # a plain Go error instead of a status (the io.EOF of a last Recv, context.Canceled, errors.New)
+                        sc.append(act("ret", code={"erreof": 1001, "errcancel": 1002, "errplain": 1003}[outcome], msg=[]))
                     else:
                         nrep = 2 if shape in ("sstream", "bidi") else 1
                         sc += [act("send", size=rnd.choice([-1, 0, 1, 4, 5, 600])) for _ in range(nrep)]
